@@ -121,47 +121,47 @@ def gen_sami_doc(rng):
         classes.append(("ENCC", "en"))
     if rng.random() < 0.5 and ("USCC", "en-US") not in classes:
         classes.append(("USCC", "en-US"))
-    styles = [[c.lower(), l] for c, l in classes] + [["plain", None]]
-    css = " ".join(".%s {lang: %s;}" % (c, l) for c, l in classes) + " .PLAIN {color: #ffffff;}"
+    styles = [[c.lower(), l] for c, l in classes] + [["plain", None], ["narrow", None]]
+    css = (" ".join(".%s {lang: %s;}" % (c, l) for c, l in classes)
+           + " .PLAIN {color: #ffffff;} .NARROW {margin-left: 5%;}")
     ps = []
     body = []
     t = rng.randrange(0, 3000)
     seen = set()
     n_sync = rng.randint(1, 6)
+
+    def astr_of(attrs):
+        return "".join(' %s="%s"' % (a, v) for a, v in attrs)
     for si in range(n_sync):
         t += rng.choice([500, 1000, 2500])
         body.append("<SYNC start=%d>" % t)
         for pi in range(rng.randint(1, 4)):
             r = rng.random()
             c, l = rng.choice(classes)
-            if r < 0.55:
+            inline = rng.choice(["fr", "en-US", "en", "de-AT", "e", "fr", l])
+            lname = rng.choice(["lang", "lang", "LANG"])
+            nolang_cls = rng.choice(["NARROW", "PLAIN", "narrow", "Unknown"])
+            if r < 0.35:                                  # class that declares the language
                 name = rng.choice([c, c, c.lower(), c.capitalize()])
-                attrs = [["class", name]]
-                astr = ' class="%s"' % name
-                lang = l
-            elif r < 0.7:
-                val = rng.choice(["en-US", "fr", "en", "de-AT", "e"])
-                attrs = [[rng.choice(["lang", "LANG"]), val]]
-                astr = ' %s="%s"' % (attrs[0][0], val)
-                lang = val[:2]
-            elif r < 0.8:
-                attrs = []
-                astr = ""
+                attrs, lang = [["class", name]], l
+            elif r < 0.45:                                # inline lang only, no class
+                attrs, lang = [[lname, inline]], inline[:2]
+            elif r < 0.52:                                # neither
+                attrs, lang = [], None
+            elif r < 0.58:                                # class without a language (layout / colour / unknown), nothing else
+                attrs, lang = [["class", nolang_cls]], None
+            elif r < 0.72:                                # class WITHOUT a language, then an inline lang: falls through
+                attrs, lang = [["class", nolang_cls], [lname, inline]], inline[:2]
+            elif r < 0.80:                                # inline lang, then a class without a language
+                attrs, lang = [[lname, inline], ["class", nolang_cls]], inline[:2]
+            elif r < 0.90:                                # class with a language, then an inline lang (same / different)
+                val = rng.choice([l, inline])
+                attrs, lang = [["class", c], [lname, val]], l
+            else:                                         # inline lang, then a class with a language
+                attrs, lang = [[lname, inline], ["class", c]], inline[:2]
+            astr = astr_of(attrs)
+            if not lang:
                 lang = None
-            elif r < 0.9:
-                attrs = [["class", "PLAIN"]]
-                astr = ' class="PLAIN"'
-                lang = None
-            else:
-                val = rng.choice(["fr", "en-US"])
-                if rng.random() < 0.5:
-                    attrs = [["class", c], ["lang", val]]
-                    astr = ' class="%s" lang="%s"' % (c, val)
-                    lang = l
-                else:
-                    attrs = [["lang", val], ["class", c]]
-                    astr = ' lang="%s" class="%s"' % (val, c)
-                    lang = val[:2]
             blank = rng.random() < 0.1 and lang in seen
             text = "&nbsp;" if blank else "s%dp%d words" % (si, pi)
             if not blank:
@@ -359,6 +359,16 @@ def judge(acc, cfg, items, obs, models):
             else:
                 acc.res["nontrivial"].add(("C", json.dumps(inp["job"])))
                 acc.count("C_prefix_shapes(en/en-US both present)", int(m[0] != m[2]))
+                nolang = {c for c, l in info["styles"] if l is None} | {"unknown"}
+                for attrs, _, _ in info["ps"]:
+                    names = [a.lower() for a, _ in attrs]
+                    if names == ["class", "lang"]:
+                        acc.count("C_p_class_without_lang_then_inline_lang" if attrs[0][1].lower() in nolang
+                                  else "C_p_class_with_lang_then_inline_lang")
+                    elif names == ["lang", "class"]:
+                        acc.count("C_p_inline_lang_then_class")
+                    elif names == ["lang"]:
+                        acc.count("C_p_inline_lang_only")
         elif tag == "D":
             ok, ok2 = oks[j], oks[j + 1]
             j += 2
